@@ -8,14 +8,14 @@ from vf.checks import c12
 
 RULE = ('(a) random valid configurations (1-3 connections x 1-3 protect entries, IPv4 / IPv6 networks also inside a tunnel of the other family, ports, IP protocols, modes, ESP/AH, '
         'explicit indices up to 2^29-1 and random ones; entries that differ only in a port) are loaded by a real controller on a fake kernel that already holds '
-        'stale SAs and policies: the request stream must start with FLUSHPOLICY and FLUSHSA, the model SAD must be empty and the model SPD must hold, for every '
+        'stale SAs (ESP, AH and IPComp, IPv4 and IPv6) and policies: the request stream must start with FLUSHPOLICY and FLUSHSA, the model SAD must be empty and the model SPD must hold, for every '
         'protect entry, exactly one OUT policy with index entry<<3|OUT and selector local->peer / template local->peer address, and one IN and one FWD policy with the '
         'reversed selector and template, all with the entry\'s IP protocol, ports, IPsec protocol and mode - nothing else; after close() both are empty. '
         '(b) RESTART POINTS: a scripted two-endpoint history is cut after every micro-step, the controller object dropped and a new one built on the same kernel: '
-        'same oracle. (c) ACQUIRE mapping: for every protect entry, kernel-encoded ACQUIREs with selectors at the corners of the entry (first / last address, '
+        'same oracle; also with the configuration switched ESP <-> AH between the two incarnations (the fake kernel interprets the protocol octet of FLUSHSA as xfrm_id_proto_match does). (c) ACQUIRE mapping: for every protect entry, kernel-encoded ACQUIREs with selectors at the corners of the entry (first / last address, '
         'port 0 / the entry\'s port / 65535) are fed through the real main_loop: the negotiation goes to that connection\'s peer, re-uses an established IKE_SA with '
         'it (CREATE_CHILD_SA instead of a new IKE_SA_INIT), and the request opened by the wire shadow carries the entry\'s proposal, mode (and the SAs then installed its lifetime), and TSi/TSr that contain '
-        'the acquire\'s selector and the entry\'s selector and lie inside the entry\'s; an ACQUIRE with an unknown index emits nothing and leaves the table unchanged; a second ACQUIRE arriving while the first handshake is in flight is queued and served (two CHILD_SAs, no IKE_SA lost). '
+        'the acquire\'s selector and the entry\'s selector and lie inside the entry\'s; an ACQUIRE with an unknown index emits nothing and leaves the table unchanged; bursts of 2-5 ACQUIREs for different flows of one entry arriving while the IKE_SA is busy (handshake, DPD, IKE_SA rekey or CHILD_SA rekey in flight) are all served: every flow is asked for on the wire and gets its CHILD_SA, no IKE_SA lost. '
         'distinct = configuration / restart point / acquire signatures.')
 ASSUMPTIONS = ['fake kernel: model SPD keyed by (selector, direction); NEWPOLICY of an existing key => EEXIST like Linux']
 SHARDS = {'quick': 8, 'thorough': 16}
@@ -120,7 +120,9 @@ def construction_case(ck, rng, i):
     sim.case = {'family': 'construction', 'conf': conf}
     k = S.FakeKernel('stale')
     # what a previous incarnation left behind
-    k.sad[('192.0.2.9', 50, b'\1\2\3\4')] = {'sa': {}, 'attrs': {}, 'req': -1}
+    # (SAs of every IPsec protocol, whatever the new configuration uses: the administrator may have edited it between the two incarnations)
+    for j, proto in enumerate((50, 51, 108, 50, 51)):
+        k.sad[(f'192.0.2.{9 + j}' if j < 3 else f'2001:db8::{9 + j}', proto, bytes([1, 2, 3, 4 + j]))] = {'sa': {}, 'attrs': {}, 'req': -1}
     k.spd[(('stale',), 1)] = {'policy': {'index': 99, 'action': 0}, 'tmpl': []}
     try:
         ep = sim.add('A', listen, conf, kernel=k)
@@ -163,11 +165,13 @@ def pair_expect(v6=False, mode='transport'):
 HISTORY = [('A', 'acquire'), 'drain', ('B', 'expire_soft'), 'drain', ('A', 'rekey_ike'), 'drain', ('B', 'acquire'), 'drain', ('A', 'expire_hard'), 'drain']
 
 
-def restart_case(ck, i, k, who):
+def restart_case(ck, i, k, who, edit=None):
     from vf.checks.c13 import history_steps
-    sc = walk.Scenario(ck.seed * 59 + i, [], dict(dpd=600, lifetime=3600), handshake=False)
+    # edit: the previous incarnation ran with AH (or ESP) and the configuration was switched to the other protocol before the restart
+    before = {'esp->ah': 'esp', 'ah->esp': 'ah'}.get(edit, 'esp')
+    sc = walk.Scenario(ck.seed * 59 + i, [], dict(dpd=600, lifetime=3600, ipsec_proto=before), handshake=False)
     sim = sc.sim
-    sim.case.update({'family': 'restart', 'after_step': k, 'endpoint': who})
+    sim.case.update({'family': 'restart', 'after_step': k, 'endpoint': who, 'edit': edit})
     n = 0
     for _ in history_steps(sc, HISTORY):
         n += 1
@@ -177,8 +181,17 @@ def restart_case(ck, i, k, who):
         return False
     ep = sc.ep(who)
     had = len(ep.kernel.sad)
-    ep.restart()
+    if edit:
+        after = edit.split('->')[1]
+        ca, cb = S.pair_conf(dpd=600, lifetime=3600, ipsec_proto=after)
+        ep.restart(ca if who == 'A' else cb)
+        ck.count('restart.with_edited_configuration')
+    else:
+        ep.restart()
     ea, eb = pair_expect()
+    if edit:
+        for e_ in ea + eb:
+            e_['ipsec'] = 51 if edit.endswith('ah') else 50
     ck.count('restart.points')
     ck.nontrivial(('restart', who, k, had > 0))
     names = [r['msg']['name'] if r['msg'] else 'BAD' for r in ep.boot_nl]
@@ -314,25 +327,63 @@ def acquire_case(ck, rng, i):
 
 
 def double_acquire(ck, i):
-    """A second ACQUIRE while the handshake started by the first is still in flight: both flows end up protected."""
+    """Two to five ACQUIREs of DIFFERENT flows of one entry while the IKE_SA is busy (handshake in flight, or a DPD / rekey exchange of the established
+    IKE_SA in flight): every flow ends up protected by its own CHILD_SA, requested with selectors that contain the flow."""
     from vf import monitors
-    sim, a, b = S.make_pair(ck.seed * 71 + i)
-    sim.case = {'family': 'double-acquire', 'i': i}
+    n_acq = 2 + i % 4
+    busy = ('handshake', 'dpd', 'rekey_ike', 'expire_soft')[(i // 4) % 4]
+    deliver_first = (i // 16) % 3
+    sim, a, b = S.make_pair(ck.seed * 71 + i, dpd=600, lifetime=3600)
+    sim.case = {'family': 'acquire-burst', 'acquires': n_acq, 'busy_with': busy, 'delivered_before_the_burst': deliver_first}
     tm = monitors.TableMonitor(ck)
     sim.monitors.append(tm.on_step)
-    sim.acquire(a, 0, sport=7001)
-    deliver_first = i % 3
+    sh = SH.Shadow(S.W.dh_log, None, check_dh=False)
+    ports = [7001 + j for j in range(n_acq)]
+    base_children = 0
+    if busy == 'handshake':
+        sim.acquire(a, 0, sport=ports[0])
+        rest = ports[1:]
+    else:
+        if not S.handshake(sim, a, b):
+            return
+        base_children = 1
+        sa = a.ctl.ike_sas[0]
+        if busy == 'dpd':
+            sa.start_dpd_at = sim.clock.t - 1
+            a.step('tick')
+        elif busy == 'rekey_ike':
+            sa.rekey_ike_sa_at = sim.clock.t - 1
+            sa.delete_ike_sa_at = sim.clock.t + 29
+            a.step('tick')
+        else:
+            sim.expire(a, bytes(sa.child_sas[0].inbound_spi), False, daddr=str(sa.my_addr))
+        rest = ports
     for _ in range(deliver_first):
         if sim.net:
             sim.deliver(0)
-    sim.acquire(a, 0, sport=7002)
+    for p_ in rest:
+        sim.acquire(a, 0, sport=p_)
     sim.drain()
     sim.settle()
+    sh.feed(sim.wire)
     ck.count('double_acquire.runs')
-    ck.nontrivial(('double-acquire', deliver_first))
-    est = [s for s in a.ctl.ike_sas if s.state.name == 'ESTABLISHED']
-    if len(est) != 1 or len(est[0].child_sas) != 2 or len(a.kernel.sad) != 4 or set(a.kernel.sad) != set(b.kernel.sad):
-        ck.violation('second-acquire-during-the-handshake-was-not-served', {'ike_sas': [(s.state.name, len(s.child_sas)) for s in a.ctl.ike_sas], 'sad': len(a.kernel.sad)}, sim.case)
+    ck.seen('double_acquire.kinds', (n_acq, busy, deliver_first))
+    ck.nontrivial(('acquire-burst', n_acq, busy, deliver_first))
+    est = [s_ for s_ in a.ctl.ike_sas if s_.state.name == 'ESTABLISHED']
+    want = base_children + n_acq
+    # flows asked for on the wire: TSi of every CHILD-creating request of A that names one specific source port
+    asked = set()
+    for ek, ex in sh.exch.items():
+        for pl in ex.get('inner') or []:
+            if pl['type'] == codec.TSI:
+                for s_ in pl['selectors']:
+                    if s_['sport'] == s_['eport'] and s_['sport'] in ports:
+                        asked.add(s_['sport'])
+    missing = [p_ for p_ in ports if p_ not in asked]
+    if missing:
+        ck.violation('acquire-for-a-flow-of-an-installed-policy-was-never-negotiated', {'flows_never_asked_for': missing, 'busy_with': busy, 'acquires': n_acq}, sim.case)
+    if len(est) != 1 or len(est[0].child_sas) != want or len(a.kernel.sad) != 2 * want or set(a.kernel.sad) != set(b.kernel.sad):
+        ck.violation('acquires-during-a-busy-ike-sa-were-not-all-served', {'ike_sas': [(s_.state.name, len(s_.child_sas)) for s_ in a.ctl.ike_sas], 'sad': len(a.kernel.sad), 'want_children': want}, sim.case)
 
 
 def unknown_index_fresh(ck, i):
@@ -359,12 +410,19 @@ def run(ck):
             if ck.mine(n):
                 if not restart_case(ck, n, k, who) and k > 45:
                     break
+    # the same restart points with the configuration switched ESP <-> AH between the incarnations (stale SAs of the protocol no longer configured)
+    for who in 'AB':
+        for edit in ('ah->esp', 'esp->ah'):
+            for k in range(2, 40, 3):
+                n += 1
+                if ck.mine(n):
+                    restart_case(ck, n, k, who, edit=edit)
     for i in range(24 if not thorough else 3000):
         if ck.mine(i):
             acquire_case(ck, ck.rng('acq', i), i)
     if ck.mine(1):
         unknown_index_fresh(ck, 1)
-    for i in range(6):
+    for i in range(48 if not thorough else 480):
         if ck.mine(i + 2):
             double_acquire(ck, i)
 
@@ -374,10 +432,12 @@ def verdict(ck):
     ck.floor('configurations loaded', c['construction.configs'], 250)
     ck.floor('policies compared', c['spd.policies_checked'], 2000)
     ck.floor('restart points', c['restart.points'], 30)
+    ck.floor('restarts with the configuration switched to the other IPsec protocol', c['restart.with_edited_configuration'], 20)
     ck.floor('restarts with stale SAs in the kernel', c['restart.with_stale_sas'], 20)
     ck.floor('acquires sent', c['acquire.sent'], 150)
     ck.floor('offers checked', c['acquire.offers_checked'], 120)
     ck.floor('installed lifetimes checked', c['acquire.lifetimes_checked'], 100)
     ck.floor('acquires that re-used the IKE_SA', c['acquire.reused_ike_sa'], 100)
-    ck.floor('double-acquire runs', c['double_acquire.runs'], 4)
+    ck.floor('acquire-burst runs', c['double_acquire.runs'], 40)
+    ck.floor('acquire-burst kinds (acquires x busy with x delivered before)', len(ck.sets['double_acquire.kinds']), 40)
     return None
